@@ -154,7 +154,8 @@ def check_page(ctx, case):
                 # a listed sub-command shows its own arguments and options
                 for a in s["args"]:
                     if (L + a["name"]) not in text.replace(L + a["name"] + "1", L + a["name"]):
-                        fail("C13.complete", "argument %s of sub-command %s" % (a["name"], s["name"]), text, sig="sub-argument")
+                        fail("C13.complete", "argument %s of sub-command %s" % (a["name"], s["name"]), text,
+                             sig="style-tag-name" if a["name"] in markup.REGISTERED else "sub-argument")
         opts = list(gen_tree.DEFAULT_APP_OPTIONS)
         args = []
         for n in range(len(path)):
@@ -163,7 +164,8 @@ def check_page(ctx, case):
             args += nd["args"]
     for a in args:
         if (L + a["name"] + G) not in text:
-            fail("C13.complete", "argument %s%s%s" % (L, a["name"], G), text, sig="argument-missing")
+            fail("C13.complete", "argument %s%s%s" % (L, a["name"], G), text,
+                 sig="style-tag-name" if a["name"] in markup.REGISTERED else "argument-missing")
     for o in opts:
         pref, alt = option_labels(o)
         if not re.search(r"(?<![\w-])" + re.escape(pref) + r"(?![\w-])", text):
@@ -201,7 +203,7 @@ PARTS = {"page": check_page}
 
 @st.composite
 def page_case(draw):
-    tree = draw(gen_tree.tree_st(typed=True, descriptions=True, unique_names=True))
+    tree = draw(gen_tree.tree_st(typed=True, descriptions=True, unique_names=True, tag_names=True))
     paths = [[]] + [p for p in gen_tree.all_paths(tree, "default") if p != ["help"]]
     path = draw(st.sampled_from(paths))
     need = min_width(tree, path)
